@@ -22,6 +22,9 @@ def load_rules(prop: str):
         raise
 
 
+VM_PROPS = {'C01', 'C02', 'C03', 'C05', 'C06', 'C07', 'C08', 'C09', 'C16', 'C17', 'C20'}
+
+
 def run_property(prop: str, tier: str, seed: int, quiet: bool = False) -> tuple[int, Report]:
     mod = load_rules(prop)
     level = getattr(mod, 'LEVEL', 'other') if mod else 'other'
@@ -32,6 +35,13 @@ def run_property(prop: str, tier: str, seed: int, quiet: bool = False) -> tuple[
     try:
         from .summary import World
         world = World()
+        notes = getattr(world.repo, 'inline_notes', None) or {}
+        for x in notes.get('inlined', [])[:12]:
+            rep.note(f'helper inlined before analysis: {x}')
+        if notes.get('opaque') and prop in VM_PROPS:
+            # a helper called from VM code that the analyser cannot look into: its effects are unknown
+            for x in notes['opaque'][:5]:
+                rep.error(f'helper not analysable: {x}')
         mod.run(world, rep)
         if tier == 'thorough' and hasattr(mod, 'run_thorough'):
             mod.run_thorough(world, rep)
